@@ -48,6 +48,15 @@ def algebra_obligations(w):
     }
 
 
+def eq_read_fields(w, cls):
+    import ast as _ast
+    node = w.cat_classes[cls]
+    for st in node.body:
+        if isinstance(st, _ast.FunctionDef) and st.name == '__eq__':
+            return sorted({n.attr for n in _ast.walk(st) if isinstance(n, _ast.Attribute) and isinstance(n.value, _ast.Name) and n.value.id == 'self'})
+    return []
+
+
 def structural_hash(w):
     """hash/eq coherence from the dataclass decision table (see DESIGN C13): each class must be
     frozen, eq=True, no explicit __hash__, no unsafe_hash, and every hashed field must be compared."""
@@ -56,8 +65,8 @@ def structural_hash(w):
         info = w.dc[cls]
         ok_hashable = info['frozen'] is True and info['eq'] is True and not info['has_hash']
         hashed = [f['name'] for f in info['fields'] if (f['hash'] is True or (f['hash'] is None and f['compare']))]
-        # the proved __eq__ contract depends on every field of the datatype
-        eq_fields = [f['name'] for f in info['fields']]
+        # fields the hand-written __eq__ reads (self.<field> in its body); a hashed field it does not read breaks `equal ==> same hash`
+        eq_fields = eq_read_fields(w, cls)
         ok_subset = all(h in eq_fields for h in hashed)
         ok_keeps_eq = info['has_eq']      # hand-written __eq__ is the one under contract
         recs.append(dict(name=f'{PROP}/depccg/cat.py::{cls}/hash-generated-from-compared-fields', kind='structural',
@@ -197,7 +206,8 @@ samples = {'Atom': lambda: Atom('S', UnaryFeature('dcl')), 'Functor': lambda: Fu
 mk = samples[%r]
 try:
     a, b = mk(), mk()
-    ok = (a == b) and hash(a) == hash(b) and (a in {b}) and ({a: 1}.get(b) == 1)
+    s1 = str(a); r1 = repr(a); e1 = (a == s1)        # one of two equal values has been rendered / compared with text, the other not
+    ok = (a == b) and hash(a) == hash(b) and (a in {b}) and ({a: 1}.get(b) == 1) and ({b: 1}.get(a) == 1)
     print('NOT-REPRODUCED' if ok else 'REPRODUCED', a, b)
 except Exception as e:
     print('REPRODUCED', type(e).__name__, e)
